@@ -116,7 +116,7 @@ def random_cases(draw):
 def plan(tier, seed):
     nshards = 16
     max_nodes = 8 if tier == "quick" else 10
-    examples = 150 if tier == "quick" else 1500
+    examples = 300 if tier == "quick" else 1500
     tasks = [{"engine": "enum", "max_nodes": max_nodes, "index": i, "count": nshards} for i in range(nshards)]
     tasks += [{"engine": "hyp", "examples": examples, "seed": seed * 1000 + i} for i in range(nshards)]
     return tasks
